@@ -432,7 +432,7 @@ def values(draw, spec, t, depth=2):
             if isinstance(ov.get(p['n']), (list, dict)):
                 # an attribute with a container default: equal to it, absent, holding one of
                 # the tricky structures (when its items are Any-typed), or anything
-                r = draw(st.integers(0, 4))
+                r = draw(st.integers(0, 3))
                 kd = 'list' if isinstance(ov[p['n']], list) else 'dict'
                 if r == 0:
                     attrs.append([p['n'], {'k': kd, 'v': []}])
